@@ -314,3 +314,9 @@ package completion
 //@   requires evalid(e) && keymap.kmvalid(e.keymap) && e.hint != nil && !e.autoForce && !e.isearchReplaceLine && e.isearchModeExit == "" && all(k, 0, len(e.groups), e.groups[k] != nil)
 //@   ensures [interrupt-restores-buffer] *e.line == old(*e.line) && e.cursor.pos == old(e.cursor.pos)
 //@   ensures [menu-cancelled] len(e.selected.Value) == 0 && e.keymap.local == ""
+
+// SelectTag (next / previous tag): same hypotheses as Select plus "exactly one group is current and some
+// group has rows" (it does not call currentGroup first, so it relies on the menu being displayed).
+//@ func (*Engine).SelectTag
+//@   props C15 C01
+//@   requires evalid(e) && keymap.kmvalid(e.keymap) && all(k, 0, len(e.groups), ginv(e.groups[k])) && (len(e.groups) > 1 ==> gcycle(e))
